@@ -1,6 +1,6 @@
 (* C03 - Generated dependency graph equals the graph the build script describes. *)
 From BFG Require Import Base.Chars Graph.Defaults Graph.DefaultsProofs Make.MakeSem Graph.Steps Graph.Emit
-  Graph.EmitProofs Graph.EmitSem Graph.StampSem.
+  Graph.EmitProofs Graph.EmitSem Graph.StampSem Graph.EmitStamp Graph.EmitStampProofs.
 Local Open Scope N_scope.
 
 (* the default target depends on the explicitly declared outputs if any, otherwise on every registered
@@ -38,8 +38,8 @@ Proof. cbn. repeat split; try constructor; cbn; intuition; try discriminate; rep
 (* Make: for every step of a shape the builtins create and each of its outputs, the prerequisites of the rule that
    carries the recipe (through the stamp for a multi-output step; order-only .dir sentinels and internal names
    dropped) are, as a set, what the step consumes *)
-Theorem C03_deps_exact_make : forall st rs o,
-  shape_ok st = true -> emit_make_step st = Some rs -> In o (outs st) ->
+Theorem C03_deps_exact_make : forall fx st rs o,
+  shape_ok st = true -> emit_make_step fx st = Some rs -> In o (outs st) ->
   exists l, make_prereqs rs o = Some l /\ set_eq l (consumed st).
 Proof. exact deps_exact_make. Qed.
 Print Assumptions C03_deps_exact_make.
@@ -77,8 +77,8 @@ Theorem C03_members : forall sc,
 Proof. intros sc. split; [exact (members_make sc)|intros has; exact (members_ninja sc has)]. Qed.
 Print Assumptions C03_members.
 
-Theorem C03_members_alias : forall st rs o has,
-  s_kind st = KAlias -> emit_make_step st = Some rs -> In o (outs st) ->
+Theorem C03_members_alias : forall fx st rs o has,
+  s_kind st = KAlias -> emit_make_step fx st = Some rs -> In o (outs st) ->
   make_prereqs rs o = Some (s_extra_deps st) /\
   ninja_prereqs (fst (emit_ninja_step has st)) o = Some (s_extra_deps st).
 Proof. exact members_alias. Qed.
@@ -95,10 +95,11 @@ Print Assumptions C03_install_in_default.
    one producer per file (C05: the emitters reject anything else), every consumed file a source or produced earlier.
    After a successful build, a second build runs nothing, and after touching x exactly the steps downstream of x in
    the SCRIPT's own dependency relation (script_down: defined on consumed, not on the emitted rules) run, in order.
-   Guard (see C03_stamp_consumers_refuted): no multi-output step. *)
-Theorem C03_rebuild_exact : forall steps f clk x,
+   Guard: no multi-output step (this semantics has no cached mtimes; for multi-output steps see
+   C03_rebuild_exact_multi for the repaired emitter and C03_stamp_consumers_refuted for the unrepaired one). *)
+Theorem C03_rebuild_exact : forall fx steps f clk x,
   wf_script steps -> fs_below f clk ->
-  let rs := sem_steps steps in
+  let rs := sem_steps fx steps in
   let s1 := build rs f clk in
   b_fail s1 = None ->
   b_log (build rs (b_fs s1) (b_clk s1)) = [] /\
@@ -108,7 +109,8 @@ Proof. exact rebuild_exact. Qed.
 Print Assumptions C03_rebuild_exact.
 
 (* the rules the theorem speaks about are the emitted ones *)
-Theorem C03_rebuild_rules : forall steps rs, emit_make_steps steps = Some rs -> sem_rules rs = sem_steps steps.
+Theorem C03_rebuild_rules : forall fx steps rs,
+  emit_make_steps fx steps = Some rs -> sem_rules rs = sem_steps fx steps.
 Proof. exact sem_steps_emit. Qed.
 Print Assumptions C03_rebuild_rules.
 
@@ -118,12 +120,12 @@ Definition ex_pch : step :=
   mkStep KCompile [mkOut 10 1; mkOut 11 1] (Some 1) (Some 2) (Some 3) [4; 5] [6] [7] [] [] [] [8] false true.
 Example ex_pch_make :
   shape_ok ex_pch = true /\
-  emit_make_step ex_pch =
-    Some [mkM [NF 10; NF 11] [NStamp 10] [] false false;
-          mkM [NStamp 10] [NF 2; NF 1; NF 3; NF 4; NF 5; NF 6; NF 7; NF 8] [NDir 1] true false] /\
-  (forall rs, emit_make_step ex_pch = Some rs -> make_prereqs rs 11 = Some [2; 1; 3; 4; 5; 6; 7; 8]) /\
+  (forall fx, emit_make_step fx ex_pch =
+    Some [mkM [NF 10; NF 11] [NStamp 10] [] fx false;
+          mkM [NStamp 10] [NF 2; NF 1; NF 3; NF 4; NF 5; NF 6; NF 7; NF 8] [NDir 1] true false]) /\
+  (forall fx rs, emit_make_step fx ex_pch = Some rs -> make_prereqs rs 11 = Some [2; 1; 3; 4; 5; 6; 7; 8]) /\
   consumed ex_pch = [2; 1; 3; 4; 5; 6; 7; 8].
-Proof. repeat split. intros rs E. vm_compute in E. injection E as <-. reflexivity. Qed.
+Proof. repeat split. intros fx rs E. vm_compute in E. injection E as <-. reflexivity. Qed.
 
 Example ex_pch_ninja :
   NoDup (outs ex_pch) /\
@@ -154,7 +156,7 @@ Definition ex_steps : list step :=
    mkStep KCopyFile [mkOut 13 2] (Some 12) None None [] [] [] [] [] [] [] false false].
 Example ex_rebuild :
   wf_script ex_steps /\ script_down 1 ex_steps = [10; 12; 13] /\ script_down 3 ex_steps = [11; 12; 13] /\
-  script_down 12 ex_steps = [13] /\ wfb (sem_steps ex_steps) = true.
+  script_down 12 ex_steps = [13] /\ wfb (sem_steps false ex_steps) = true.
 Proof.
   repeat split; try (repeat constructor; cbn; intuition discriminate).
   all: cbn; intros p H; intuition (subst; discriminate).
@@ -199,12 +201,105 @@ Proof. exact stamp_consumers_refuted. Qed.
 Print Assumptions C03_stamp_consumers_refuted.
 
 (* the example rules are what the Make emitter produces for that script (nodes 10 11 = outputs, 12 = the stamp) *)
-Example ex_stamp_is_emitted :
-  emit_make_step (mkStep KBuildStep [mkOut 10 0; mkOut 11 0] None None None [] [] [] [1] [] [] [] false false) =
-    Some [mkM [NF 10; NF 11] [NStamp 10] [] false false; mkM [NStamp 10] [NF 1] [] true false].
+Example ex_stamp_is_emitted : forall fx,
+  emit_make_step fx (mkStep KBuildStep [mkOut 10 0; mkOut 11 0] None None None [] [] [] [1] [] [] [] false false) =
+    Some [mkM [NF 10; NF 11] [NStamp 10] [] fx false; mkM [NStamp 10] [NF 1] [] true false].
 Proof. reflexivity. Qed.
 
 Example ex_stamp_equiv_nonvacuous :
   let s := init (fs_of [(1, 9); (10, 7); (11, 7); (12, 7)]) 10 in
   (forall o, In o [10; 11] -> b_fs s o = b_fs s 12) /\ need [] s (stamp_rule 12 [1] []) = true.
 Proof. split; [intros o [<-|[<-|[]]]; reflexivity|reflexivity]. Qed.
+
+(* ====================================================================== the repaired stamp encoding (fx = true)
+   multitarget_rule gives the rule  outs: stamp  the no-op recipe  @: , so GNU Make looks at an output again after the
+   stamp's recipe ran.  The no-op recipe is NOT a step: in StampSem its runs are recorded in d_nlog, the theorems below
+   speak about d_log (the targets whose real recipe ran: the output of a single-output step, the stamp of a multi-output
+   step - EmitStamp.step_target).  Because the stamp is touched after the outputs (lag), the no-op recipe of an output
+   older than its stamp runs again in every later make; no step does. *)
+
+(* the witness of C03_stamp_consumers_refuted with the repaired rule shape: both consumers are rebuilt in the make that
+   re-runs the step, and the makes after a make run no step *)
+Theorem C03_stamp_consumers_repaired :
+  let rs := ex_stamp_rules_v RNoop 1 in
+  let b1 := dmake rs [20; 21] (fs_of [(1, 5)]) 10 in
+  let b2 := dmake rs [20; 21] (d_fs b1) (d_clk b1) in
+  let b3 := dmake rs [20; 21] (upd (d_fs b1) 1 (d_clk b1)) (d_clk b1 + 1) in
+  let b4 := dmake rs [20; 21] (d_fs b3) (d_clk b3) in
+  d_log b1 = [12; 20; 21] /\ d_log b2 = [] /\ d_nlog b2 = [10; 11] /\
+  d_log b3 = [12; 20; 21] /\ d_log b4 = [] /\
+  d_fail b1 = false /\ d_fail b3 = false /\ d_fail b4 = false.
+Proof. exact stamp_consumers_repaired. Qed.
+Print Assumptions C03_stamp_consumers_repaired.
+
+(* Rebuild exactness WITHOUT the single-output restriction, for the rules the repaired emitter registers
+   (EmitStamp.xsem_steps true: read off emit_make_step true), under GNU Make's depth-first walk with cached mtimes
+   (StampSem.dmake, validated against GNU Make 4.3 for both rule shapes), any lag between outputs and stamp.
+   Guards: every step has one output or goes through the stamp (simple / multi: not phony, not an alias), the shape
+   of its Edge class, one producer per file (C05), consumed files are sources or produced earlier (wf_script_multi);
+   a fresh build directory (no output, no stamp yet: clean_for) in which the sources and .dir sentinels exist
+   (inputs_exist); the goals are all outputs in script order (make all, all depending on everything).
+   Then: the first build runs every step once; a second build runs no step; after touching any file x ONE build runs
+   exactly the steps downstream of x in the script's own dependency relation (script_down_steps, on consumed), in
+   script order, without failure; and the build after that runs no step. *)
+Theorem C03_rebuild_exact_multi : forall lag steps f clk x,
+  wf_script_multi steps -> fs_below f clk ->
+  let rs := xsem_steps true lag steps in
+  let goals := script_goals steps in
+  clean_for rs f -> inputs_exist rs f ->
+  let b1 := dmake rs goals f clk in
+  d_fail b1 = false /\ d_log b1 = map step_target steps /\
+  d_log (dmake rs goals (d_fs b1) (d_clk b1)) = [] /\
+  (let b3 := dmake rs goals (upd (d_fs b1) (encF x) (d_clk b1)) (d_clk b1 + 1) in
+   d_fail b3 = false /\ d_log b3 = map step_target (script_down_steps x steps) /\
+   d_log (dmake rs goals (d_fs b3) (d_clk b3)) = []).
+Proof. exact rebuild_exact_multi. Qed.
+Print Assumptions C03_rebuild_exact_multi.
+
+(* the outputs of the steps that re-run are the list script_down of C03_rebuild_exact *)
+Theorem C03_script_down_steps : forall x steps,
+  flat_map outs (script_down_steps x steps) = script_down x steps.
+Proof. exact script_down_steps_outs. Qed.
+Print Assumptions C03_script_down_steps.
+
+(* ---- non-vacuity: gen.in (1) -> 2-output build_step (10 11, stamp of 10) ; copy_file of 10 -> 20 ; build_step 21 from 11 *)
+Definition ex_multi_steps : list step :=
+  [mkStep KBuildStep [mkOut 10 0; mkOut 11 0] None None None [] [] [] [1] [] [] [] false false;
+   mkStep KCopyFile [mkOut 20 0] (Some 10) None None [] [] [] [] [] [] [] false false;
+   mkStep KBuildStep [mkOut 21 0] None None None [] [] [] [11] [] [] [] false false].
+
+Example ex_multi_wf :
+  wf_script_multi ex_multi_steps /\
+  clean_for (xsem_steps true 1 ex_multi_steps) (fs_of [(4, 5)]) /\
+  inputs_exist (xsem_steps true 1 ex_multi_steps) (fs_of [(4, 5)]) /\
+  fs_below (fs_of [(4, 5)]) 10 /\
+  script_down_steps 1 ex_multi_steps = ex_multi_steps /\ script_down 1 ex_multi_steps = [10; 11; 20; 21] /\
+  map step_target ex_multi_steps = [41; 80; 84] /\ script_goals ex_multi_steps = [40; 44; 80; 84].
+Proof.
+  split; [|split; [|split; [|split]]].
+  - split; [|split].
+    + constructor; [split; [right; reflexivity|reflexivity]|]. constructor; [split; [left; reflexivity|reflexivity]|].
+      constructor; [split; [left; reflexivity|reflexivity]|constructor].
+    + repeat constructor; cbn; intuition discriminate.
+    + cbn. repeat split; intros p H; intuition (subst; discriminate).
+  - intros r Hr. cbn in Hr. repeat (destruct Hr as [<-|Hr]; [reflexivity|]). contradiction.
+  - intros r Hr p Hp Hn. cbn in Hr.
+    repeat (destruct Hr as [<-|Hr];
+            [cbn in Hp; repeat (destruct Hp as [<-|Hp]; [first [cbn; discriminate|exfalso; apply Hn; cbn; tauto]|]);
+             contradiction|]).
+    contradiction.
+  - intros y t. cbn. destruct (y =? 4); intros H; [inversion H; lia|discriminate].
+  - repeat split.
+Qed.
+
+(* on the very same script the rules of the UNREPAIRED emitter (fx = false) violate the statement: after touching the
+   input the copy of the first output is not rebuilt, the next build (nothing touched) rebuilds it *)
+Theorem C03_rebuild_exact_multi_unrepaired_refuted :
+  let rs := xsem_steps false 1 ex_multi_steps in
+  let goals := script_goals ex_multi_steps in
+  let b1 := dmake rs goals (fs_of [(4, 5)]) 10 in
+  let b3 := dmake rs goals (upd (d_fs b1) (encF 1) (d_clk b1)) (d_clk b1 + 1) in
+  d_log b1 = [41; 80; 84] /\ d_fail b3 = false /\
+  d_log b3 = [41; 84] /\ d_log (dmake rs goals (d_fs b3) (d_clk b3)) = [80].
+Proof. vm_compute. repeat split. Qed.
+Print Assumptions C03_rebuild_exact_multi_unrepaired_refuted.
